@@ -46,10 +46,11 @@ def mc_cfg(n, types, txs, interleave=False, selfloop_refused=True, noops=True, e
     return c + "CHECK_DEADLOCK FALSE\n"
 
 
-def gen_cfg(n, types, txs, depth, canon, cover, noops=False, extra=False, maxset=2, initres=None):
+def gen_cfg(n, types, txs, depth, canon, cover, noops=False, extra=False, maxset=2, initres=None,
+            emit_one_in=1):
     c = "SPECIFICATION GSpec\n" + consts(n, types, txs, False, True, noops, extra, maxset, initres)
-    c += "  Depth = %d\n  Canon = %s\n  Cover = %s\nINVARIANTS Emit\n" % (
-        depth, str(canon).upper(), str(cover).upper())
+    c += "  Depth = %d\n  Canon = %s\n  Cover = %s\n  EmitOneIn = %d\nINVARIANTS Emit\n" % (
+        depth, str(canon).upper(), str(cover).upper(), emit_one_in)
     if cover:
         c += "VIEW GView\n"
     return c + "CHECK_DEADLOCK FALSE\n"
@@ -72,6 +73,12 @@ def write_hists(ctx, res, path, keep=None, seed=0):
         for s in lines:
             f.write(s + "\n")
     samples = [json.loads(s) for s in lines[:1]]
+    acts = {}
+    for s in lines:
+        for st in json.loads(s):
+            k = st["a"] + ":" + st["cls"] + (":tx" if st["w"] != "db" else "")
+            acts[k] = acts.get(k, 0) + 1
+    ACTS.append(acts)
     return total, len(lines), samples
 
 
@@ -153,6 +160,28 @@ def simulate_define(hist, step, m, initres, confused):
     return "ok"
 
 
+def same_type_cycle(hist, step, initres):
+    """Does the define close a cycle using edges of its own relationship type only?"""
+    st = hist[step]
+    _, edges = pre_view(hist, step, initres)
+    adj = {}
+    for f, ty, t in edges:
+        if ty == st["ty"]:
+            adj.setdefault(f, set()).add(t)
+    targets = [st["y"]] if st["a"] == "defrel" else list(st["s"])
+    for t in targets:
+        seen, todo = set(), [t]
+        while todo:
+            x = todo.pop()
+            if x == st["x"]:
+                return True
+            if x in seen:
+                continue
+            seen.add(x)
+            todo += list(adj.get(x, ()))
+    return False
+
+
 def classify(hist, m, initres):
     """-> (signature, verdict_bearing, text). verdict_bearing False = model drift."""
     step = m.get("step", -1)
@@ -205,6 +234,10 @@ def classify(hist, m, initres):
             base = "define failed unexpected-error"
         elif act == "ok" and exp == "cyclic":
             base = "define accepted " + ("self-loop" if selfloop else "cycle")
+            if not selfloop and not same_type_cycle(hist, step, initres):
+                # the new edge closes a cycle only together with edges of another
+                # relationship type: that the code refuses those is pinned beyond C16
+                base, verdict = "define accepted cross-type-cycle", False
         elif act == "ok" and exp == "notfound":
             base = "define accepted missing-endpoint"
         else:
@@ -242,6 +275,7 @@ class Batch:
 
 
 _LINES = {}
+ACTS = []
 
 
 def read_line(path, i):
@@ -341,8 +375,12 @@ def run(ctx):
         plans.append(dict(name="cover-n3-tx", n=3, types=["p"], txs=["t1"], depth=40, canon=True, cover=True, keep=60000, perms=3))
         plans.append(dict(name="cover-n3-pq", n=3, types=["p", "q"], txs=[], depth=40, canon=True, cover=True, keep=20000, perms=3))
         plans.append(dict(name="cover-n4", n=4, types=["p"], txs=[], depth=40, canon=True, cover=True, keep=40000, perms=3))
-        plans.append(dict(name="sim-n5", n=5, types=["p", "q"], txs=["t1"], depth=12, canon=False, cover=False,
-                          keep=None, perms=2, simulate="num=12000", noops=True, extra=True, maxset=3, initres=4))
+        plans.append(dict(name="sim-n5-p", n=5, types=["p"], txs=["t1"], depth=12, canon=False, cover=False,
+                          keep=None, perms=2, simulate="num=%d" % max(1, 600 // W), emit_one_in=50,
+                          noops=True, extra=True, maxset=2, initres=4))
+        plans.append(dict(name="sim-n4-pq", n=4, types=["p", "q"], txs=["t1"], depth=12, canon=False, cover=False,
+                          keep=None, perms=2, simulate="num=%d" % max(1, 600 // W), emit_one_in=50,
+                          noops=True, extra=True, maxset=2, initres=3))
     batches = []
     samples = []
     total_hist = 0
@@ -353,7 +391,7 @@ def run(ctx):
         tag = "gen_" + pl["name"]
         cfg = gen_cfg(pl["n"], pl["types"], pl["txs"], pl["depth"], pl["canon"], pl["cover"],
                       noops=pl.get("noops", False), extra=pl.get("extra", False), maxset=pl.get("maxset", 2),
-                      initres=pl.get("initres"))
+                      initres=pl.get("initres"), emit_one_in=pl.get("emit_one_in", 1))
         r = ctx.tlc(AREA, "OntologyGen", tag + ".cfg", files={tag + ".cfg": cfg}, tag=tag, workers=W,
                     timeout=2400, simulate=pl.get("simulate"),
                     depth=pl["depth"] + 1 if pl.get("simulate") else None)
@@ -380,6 +418,16 @@ def run(ctx):
     need = ["def_ok", "def_cyclic", "def_notfound", "del_cascade", "commits", "aborts", "tx_steps",
             "traversals", "deep_levels", "missing_queries"]
     lacking = [k for k in need if not stats.get(k)]
+    acts = {}
+    for a in ACTS:
+        for k, v in a.items():
+            acts[k] = acts.get(k, 0) + v
+    want_acts = ["begin:ok:tx", "commit:ok:tx", "abort:ok:tx", "defres:ok", "delres:ok", "delres:ok:tx", "delresmany:ok",
+                 "defrel:ok", "defrel:ok:tx", "defrel:cyclic", "defrel:notfound", "defmany:ok", "defmany:cyclic",
+                 "defmany:notfound", "delrel:ok", "delrel:ok:tx"]
+    if thorough:
+        want_acts += ["delout:ok", "delin:ok", "defresmany:ok", "reopen:ok"]
+    lacking += [k for k in want_acts if not acts.get(k)]
     cov = {
         "states": states, "transitions": trans,
         "traces_validated_against_impl": total_hist,
@@ -389,6 +437,7 @@ def run(ctx):
         "design_runs": design,
         "batches": batches,
         "mechanisms": stats,
+        "spec_steps_replayed": acts,
         "mismatch_signatures": counts,
         "concretisations": ["plain", "prefix", "suffix", "colon"],
         "rule": "each history replayed on a fresh memkv ontology under 4 identifier concretisations x seeded injections "
